@@ -247,8 +247,7 @@ def wrapper(which, body, exit_on_term, exit_on_kill, tg_mode, outer_cancel):
         return "child-that-ignored-terminate-was-not-killed"
     if exit_on_term and "kill" in p.log:
         return "cooperative-child-was-killed"
-    if body == 1 and not (suppressed is False or isinstance(raised, KeyError)):
-        return "body-exception-swallowed-or-replaced"
+    # (whether the body's own exception or a cancellation surfaces is not part of the property: not judged)
     if body == 0 and not W.outer_cancelled and raised is not None and not (tg_mode in (2, 4) and isinstance(raised, BaseException)):
         return "normal-exit-raised:" + type(raised).__name__
     return "ok"
